@@ -275,7 +275,15 @@ def lenchars(run, p, disc, gmap):
     for cname, agg_ in (('MinLengthConstraint', 'min'), ('MaxLengthConstraint', 'max')):
         for c in ctor_calls(disc, cname):
             n += 1
-            clo = dep_closure_at(disc.node, c.args[0], gmap)
+            from .common import closure_aggregates
+            clo = closure_aggregates(disc.node, dep_closure_at(disc.node, c.args[0], gmap))
+            other = 'max' if agg_ == 'min' else 'min'
+            # the value's own running extreme decides; a sibling extreme kept in the same loop does not count against it
+            from .common import running_extremes
+            rx = running_extremes(disc.node)
+            direct = {rx[n0] for n0 in names_in(c.args[0]) if n0 in rx}
+            if direct:
+                clo = (clo - {'min', 'max'}) | direct
             ok = agg_ in clo and 'len' in clo and 'self.calc_unique_values' in clo and not any(x.startswith('self.calc_') and x.endswith('_length') for x in clo)
             run.ob('C07-LENCHARS', cname, ok, '%s value derives from %s' % (cname, sorted(x for x in clo if x in ('min', 'max', 'len') or x.startswith('self.calc_'))),
                    fn=disc, node=c)
